@@ -23,7 +23,7 @@ def judge(api, ops, ans):
 def cases_for(run):
     rng = run.rng
     cases = []
-    n = 260 if run.tier == "quick" else 8000
+    n = 260 if run.tier == "quick" else 4000
     for i in range(n):
         ops = Z.gen_ops(rng, "arena", 10 if i % 3 else 16)
         # build the same family in a second way so that canonicity is exercised
@@ -43,7 +43,7 @@ def cases_for(run):
     for api in ("arena",):
         cases += Z.exhaustive_pairs(2, ["union", "inter", "diff"], api)
     if run.tier == "thorough":
-        cases += Z.exhaustive_pairs(3, ["union", "inter", "diff"], "arena", limit=30000, rng=rng)
+        cases += Z.exhaustive_pairs(3, ["union", "inter", "diff"], "arena", limit=8000, rng=rng)
     return cases
 
 
